@@ -291,6 +291,19 @@ func unzipObserved(c *Case, s *hx.Sink, e *enc, zipFile, snapDir, destRel, destF
 				panicked = true
 			}
 		}()
+		if len(c.Items) > 500 {
+			// many entries: the process may hold 256 descriptors while it extracts them (a common limit is 1024; an
+			// extraction that keeps every file open until it returns runs out of them)
+			var lim syscall.Rlimit
+			if syscall.Getrlimit(syscall.RLIMIT_NOFILE, &lim) == nil && lim.Cur > 256 {
+				low := lim
+				low.Cur = 256
+				if syscall.Setrlimit(syscall.RLIMIT_NOFILE, &low) == nil {
+					defer syscall.Setrlimit(syscall.RLIMIT_NOFILE, &lim)
+					s.Count("unzip:with-256-descriptors")
+				}
+			}
+		}
 		err = files.UnzipToFolder(zipFile, destArg)
 	}()
 	after := snapshot(snapDir)
@@ -678,6 +691,16 @@ func main() {
 	for i, desc := range []string{"rep:1048577:0", "rep:2097152:5", "rep:3145745:1", "rep:6291456:0"} {
 		c := genTree(prng.New(fl.Seed, "C20treebig", uint64(i)), false)
 		c.Items = append(c.Items, Item{P: fmt.Sprintf("big%d.bin", i), C: desc})
+		id++
+		c.ID = id
+		run(c)
+	}
+	// directed: a tree with many small files (more than the descriptors the process may hold while it extracts them)
+	{
+		c := genTree(prng.New(fl.Seed, "C20treemany", 0), false)
+		for i := 0; i < 700; i++ {
+			c.Items = append(c.Items, Item{P: fmt.Sprintf("m%03d.txt", i), C: fmt.Sprintf("%d:%d", 1+i%7, i)})
+		}
 		id++
 		c.ID = id
 		run(c)
